@@ -54,6 +54,7 @@ var byPkg = map[string][]*TypeInfo{}
 var pkgNames []string
 
 func buildCatalogue() {
+	registerDynamicTypes()
 	var names []string
 	protoregistry.GlobalTypes.RangeMessages(func(mt protoreflect.MessageType) bool {
 		n := string(mt.Descriptor().FullName())
@@ -639,8 +640,16 @@ func genWorkload(seed uint64, deep bool) *Workload {
 			pool = append(pool, goodTypes[rng.Intn(len(goodTypes))])
 		}
 	}
-	if len(badTypes) > 0 && rng.Bool(0.08) {
+	if len(badTypes) > 0 && rng.Bool(0.10) {
 		pool = append(pool, badTypes[rng.Intn(len(badTypes))]) // failing first use
+		if rng.Bool(0.7) {
+			// and successful users of the sub-schemas the failed build leaves behind
+			for _, n := range []string{"test.zzbad.v1.Good", "test.zzbad.v1.Mid", "test.zzbad.v1.Leaf"} {
+				if ti := catByName[n]; ti != nil && rng.Bool(0.6) {
+					pool = append(pool, ti)
+				}
+			}
+		}
 	}
 	maxTasks, maxOps := 4, 3
 	if deep {
